@@ -42,12 +42,12 @@ type Leak struct {
 }
 
 type tsState struct {
-	handed     bool // ownership was passed on (goroutine / callee / channel)
-	held       bool
-	deferAll   bool
-	deferFlag  bool // a flag-guarded deferred release is registered
-	flag       int8 // -1 unknown, 0 false, 1 true
-	flagPolTru bool // deferred release fires when flag == flagPolTru
+	handed    bool // ownership was passed on (goroutine / callee / channel)
+	held      bool
+	deferAll  bool
+	deferFlag bool  // a flag-guarded deferred release is registered
+	flag      int64 // -1 unknown; false/true are 0/1; an enum-typed flag holds its constant
+	flagRel   int64 // the deferred release fires when flag == flagRel
 }
 
 // EarlyRelease: the function that handed a resource to a goroutine releases it itself afterwards.
@@ -106,8 +106,8 @@ func cellOf(v ssa.Value) *ssa.Alloc {
 type event struct {
 	kind     string // release, deferAll, deferFlag, handoff, setFlag, carry
 	flagCell ssa.Value
-	flagVal  bool
-	pol      bool
+	flagVal  int64
+	pol      int64
 }
 
 // CheckFrom verifies the obligation for resource v in fn starting at instruction start (nil =
@@ -116,12 +116,22 @@ type event struct {
 func (ts *TypeState) CheckFrom(fn *ssa.Function, v ssa.Value, start ssa.Instruction, okFalse ssa.Value, what string) bool {
 	ts.Visited[fn] = true
 	cell := cellOf(v)
+	// carriers: fresh objects whose field holds v (object -> field name)
+	carriers := map[ssa.Value]string{}
 	isV := func(x ssa.Value) bool {
 		if x == nil {
 			return false
 		}
 		if ts.isAlias(v, x) {
 			return true
+		}
+		// read back out of the object it was put in
+		if u, ok := x.(*ssa.UnOp); ok && u.Op == token.MUL {
+			if _, f, base, ok := FieldRef(u.X); ok {
+				if cf, isC := carriers[Unwrap(base)]; isC && cf == f {
+					return true
+				}
+			}
 		}
 		if cell != nil {
 			if u, ok := x.(*ssa.UnOp); ok && u.Op == token.MUL && u.X == ssa.Value(cell) {
@@ -138,20 +148,18 @@ func (ts *TypeState) CheckFrom(fn *ssa.Function, v ssa.Value, start ssa.Instruct
 		}
 		return -1, false
 	}
-	// carriers: fresh objects whose field holds v
-	carriers := map[ssa.Value]bool{}
 	for _, b := range fn.Blocks {
 		for _, in := range b.Instrs {
 			if st, ok := in.(*ssa.Store); ok && isV(st.Val) {
-				if _, _, base, ok := FieldRef(st.Addr); ok {
-					carriers[base] = true
+				if _, f, base, ok := FieldRef(st.Addr); ok {
+					carriers[Unwrap(base)] = f
 				}
 			}
 		}
 	}
 	isCarrier := func(x ssa.Value) bool {
-		x = Unwrap(x)
-		return carriers[x]
+		_, ok := carriers[Unwrap(x)]
+		return ok
 	}
 	anyEvent := false
 	handedAsync := map[*ssa.Function]bool{}
@@ -162,8 +170,14 @@ func (ts *TypeState) CheckFrom(fn *ssa.Function, v ssa.Value, start ssa.Instruct
 		case *ssa.Store:
 			if a, ok := x.Addr.(*ssa.Alloc); ok {
 				if bv, isC := ConstBool(x.Val); isC {
-					evs = append(evs, event{kind: "setFlag", flagCell: a, flagVal: bv})
-				} else if bt, isB := x.Val.Type().Underlying().(*types.Basic); isB && bt.Kind() == types.Bool {
+					fv := int64(0)
+					if bv {
+						fv = 1
+					}
+					evs = append(evs, event{kind: "setFlag", flagCell: a, flagVal: fv})
+				} else if k, isK := ConstInt(x.Val); isK && k >= 0 {
+					evs = append(evs, event{kind: "setFlag", flagCell: a, flagVal: k})
+				} else if bt, isB := x.Val.Type().Underlying().(*types.Basic); isB && (bt.Kind() == types.Bool || bt.Info()&types.IsInteger != 0) {
 					evs = append(evs, event{kind: "setFlagUnknown", flagCell: a})
 				}
 			}
@@ -266,16 +280,12 @@ func (ts *TypeState) CheckFrom(fn *ssa.Function, v ssa.Value, start ssa.Instruct
 				anyEvent = true
 			case "deferFlag":
 				st.deferFlag = true
-				st.flagPolTru = e.pol
+				st.flagRel = e.pol
 				anyEvent = true
 				// remember the cell by resetting flag knowledge from its current stores: handled by setFlag events
 				_ = e.flagCell
 			case "setFlag":
-				if e.flagVal {
-					st.flag = 1
-				} else {
-					st.flag = 0
-				}
+				st.flag = e.flagVal
 			}
 		}
 		return st
@@ -307,6 +317,15 @@ func (ts *TypeState) CheckFrom(fn *ssa.Function, v ssa.Value, start ssa.Instruct
 						st.flag = 1
 					} else {
 						st.flag = 0
+					}
+				}
+			}
+			if theFlag != nil && f.Op == token.EQL {
+				for _, pair := range [][2]ssa.Value{{f.X, f.Y}, {f.Y, f.X}} {
+					if u, ok := pair[0].(*ssa.UnOp); ok && u.Op == token.MUL && u.X == theFlag {
+						if k, isC := ConstInt(pair[1]); isC && k >= 0 {
+							st.flag = k
+						}
 					}
 				}
 			}
@@ -383,11 +402,11 @@ func (ts *TypeState) CheckFrom(fn *ssa.Function, v ssa.Value, start ssa.Instruct
 		if isExit {
 			// a deferred release that fires although ownership was handed to a goroutine/callee that
 			// is still using the slot gives the slot back while the transfer is running
-			if st.handed && handedAsync[n.b.Parent()] && (st.deferAll || (st.deferFlag && (st.flag < 0 || (st.flag == 1) == st.flagPolTru))) && !ts.early[fn] {
+			if st.handed && handedAsync[n.b.Parent()] && (st.deferAll || (st.deferFlag && (st.flag < 0 || st.flag == st.flagRel))) && !ts.early[fn] {
 				ts.early[fn] = true
 				ts.Early = append(ts.Early, EarlyRelease{Fn: fn, At: n.b.Instrs[len(n.b.Instrs)-1]})
 			}
-			released := !st.held || st.deferAll || (st.deferFlag && st.flag >= 0 && (st.flag == 1) == st.flagPolTru)
+			released := !st.held || st.deferAll || (st.deferFlag && st.flag >= 0 && st.flag == st.flagRel)
 			if !released && !leakAt[n.b] {
 				leakAt[n.b] = true
 				var path []*ssa.BasicBlock
@@ -499,7 +518,7 @@ func (f freeVarResource) value() ssa.Value { return f.fv }
 // deferredClosureRelease analyses `defer func(){ ... }()`: does the closure release the
 // resource bound at index bi unconditionally (all=true) or under a captured boolean cell
 // (flagCell in the parent, pol = value of the flag under which it releases)?
-func (ts *TypeState) deferredClosureRelease(cf *ssa.Function, bi int, mc *ssa.MakeClosure) (flagCell ssa.Value, pol bool, all bool, ok bool) {
+func (ts *TypeState) deferredClosureRelease(cf *ssa.Function, bi int, mc *ssa.MakeClosure) (flagCell ssa.Value, pol int64, all bool, ok bool) {
 	fv := cf.FreeVars[bi]
 	isV := func(x ssa.Value) bool {
 		x = Unwrap(x)
@@ -522,7 +541,7 @@ func (ts *TypeState) deferredClosureRelease(cf *ssa.Function, bi int, mc *ssa.Ma
 		}
 	}
 	if rel == nil {
-		return nil, false, false, false
+		return nil, 0, false, false
 	}
 	// unconditional?
 	target := rel.Block()
@@ -531,26 +550,63 @@ func (ts *TypeState) deferredClosureRelease(cf *ssa.Function, bi int, mc *ssa.Ma
 			_, isRet := b.Instrs[len(b.Instrs)-1].(*ssa.Return)
 			return isRet && b != target
 		}}); w == nil {
-		return nil, false, true, true
+		return nil, 0, true, true
 	}
-	// guarded by exactly one captured bool cell
+	// guarded by exactly one captured cell: a bool tested for its truth, or an integer-typed
+	// (enum) cell compared with a constant
 	for fi, f2 := range cf.FreeVars {
-		for _, polarity := range []bool{true, false} {
+		f2 := f2
+		isLoad := func(v ssa.Value) bool {
+			u, ok := v.(*ssa.UnOp)
+			return ok && u.Op == token.MUL && u.X == ssa.Value(f2)
+		}
+		// what a fact says about the cell: (value, says-equal, about-the-cell)
+		about := func(f Fact) (int64, bool, bool) {
+			if f.Op == token.ILLEGAL {
+				if f.V != nil && isLoad(f.V) {
+					if f.Truth {
+						return 1, true, true
+					}
+					return 0, true, true
+				}
+				return 0, false, false
+			}
+			if f.Op != token.EQL && f.Op != token.NEQ {
+				return 0, false, false
+			}
+			for _, pr := range [][2]ssa.Value{{f.X, f.Y}, {f.Y, f.X}} {
+				if k, isC := ConstInt(pr[1]); isC && k >= 0 && isLoad(pr[0]) {
+					return k, f.Op == token.EQL, true
+				}
+			}
+			return 0, false, false
+		}
+		cands := map[int64]bool{}
+		for _, b := range cf.Blocks {
+			for i := range b.Succs {
+				for _, f := range EdgeFacts(b, i) {
+					if k, eq, ok := about(f); ok && eq {
+						cands[k] = true
+					}
+				}
+			}
+		}
+		var ks []int64
+		for k := range cands {
+			ks = append(ks, k)
+		}
+		sort.Slice(ks, func(i, j int) bool { return ks[i] > ks[j] })
+		for _, polarity := range ks {
+			polarity := polarity
 			g := AnyFact(func(f Fact) bool {
-				if f.Op != token.ILLEGAL || f.Truth != polarity {
-					return false
-				}
-				u, ok := f.V.(*ssa.UnOp)
-				return ok && u.Op == token.MUL && u.X == ssa.Value(f2)
+				k, eq, ok := about(f)
+				return ok && eq && k == polarity
 			})
-			// every path where the flag has that polarity reaches the release:
-			// cut = edges establishing the opposite polarity, or entering the release block
+			// every path where the flag has that value reaches the release:
+			// cut = edges establishing another value, or entering the release block
 			opp := AnyFact(func(f Fact) bool {
-				if f.Op != token.ILLEGAL || f.Truth == polarity {
-					return false
-				}
-				u, ok := f.V.(*ssa.UnOp)
-				return ok && u.Op == token.MUL && u.X == ssa.Value(f2)
+				k, eq, ok := about(f)
+				return ok && ((eq && k != polarity) || (!eq && k == polarity))
 			})
 			hasGuard := InstrGuarded(rel, g, nil) == nil
 			if !hasGuard {
@@ -566,7 +622,7 @@ func (ts *TypeState) deferredClosureRelease(cf *ssa.Function, bi int, mc *ssa.Ma
 			}
 		}
 	}
-	return nil, false, false, false
+	return nil, 0, false, false
 }
 
 // SortLeaks orders leaks deterministically.
